@@ -1129,7 +1129,9 @@ def _pipe_expr(e, F, run2ty, mut_names, depth):
         return [(short(run2ty[callee_of(e)]), e)]
     if k == "Call" and (callee_of(e) or "").startswith(MANAGER + "::") and callee_of(e) in F.fns and depth < 3 and "hir" in F.fns[callee_of(e)]:
         g = F.fns[callee_of(e)]
+        _STABLE_ROOT[:] = [g["hir"]["value"]]
         inner = stage2_pipeline(F, g, run2ty, mut_names, depth + 1)
+        _STABLE_ROOT[:] = []
         if inner:
             return inner
     if k == "Loop" and e.get("src") != "While" or (k == "Loop"):
@@ -1172,6 +1174,9 @@ def _pipe_expr(e, F, run2ty, mut_names, depth):
     return out
 
 
+_STABLE_ROOT = []
+
+
 def _stable_exit(body, run2ty, mut_names):
     """the loop body leaves the loop only under `count_after == count_before`, where `count_before` is bound between the
     value analysis and the last edge-mutating pass and both counts are computed from the graph's edges (`nexts`/`prevs`)"""
@@ -1204,6 +1209,27 @@ def _stable_exit(body, run2ty, mut_names):
     if len(before) != 1:
         return False
     bi = lets[before[0]["res"]]
+    # both sides must be counts of the graph's edges: they mention nexts()/prevs() directly or through a local closure that does
+    # (comparing the graph value itself does not work: Cfg's clone shares the nodes and its equality ignores edges)
+    closures = {}
+    for st in walk(_STABLE_ROOT[0] if _STABLE_ROOT else body, pats=False):
+        if st.get("k") == "Let" and st["pat"].get("k") == "PBinding" and st.get("init") and peel(st["init"]).get("k") == "Closure":
+            closures[st["pat"]["name"]] = peel(st["init"])
+
+    def edge_count(e):
+        e = peel(e)
+        ns = list(walk(e, pats=False))
+        if any(m.get("k") == "MethodCall" and m["name"] in ("nexts", "prevs") for m in ns) and any(m.get("k") == "MethodCall" and m["name"] in ("len", "count", "sum") for m in ns):
+            return True
+        for c_ in ns:
+            if c_.get("k") == "Call" and peel(c_["f"]).get("k") == "Path" and peel(c_["f"]).get("res") in closures:
+                cb = list(walk(closures[peel(c_["f"])["res"]].get("body") or {}, pats=False))
+                if any(m.get("k") == "MethodCall" and m["name"] in ("nexts", "prevs") for m in cb) and any(m.get("k") == "MethodCall" and m["name"] in ("len", "count", "sum") for m in cb):
+                    return True
+        return False
+    other = [x for x in sides if x is not before[0]][0]
+    if not (edge_count(stmts[bi]["init"]) and edge_count(other)):
+        return False
     # the mutating pass sits between the binding and the test
     mut_idx = [i for i, s_ in enumerate(stmts) for n in walk(s_, pats=False) if n.get("k") == "Call" and callee_of(n) in run2ty and short(run2ty[callee_of(n)]) in mut_names]
     return bool(mut_idx) and all(bi < i < len(stmts) - 1 for i in mut_idx[-1:]) and bi > min([i for i, s_ in enumerate(stmts) for n in walk(s_, pats=False) if n.get("k") == "Call" and callee_of(n) in run2ty] or [99])
@@ -1629,6 +1655,7 @@ def c01h(F, R):
             R.bad(what, f"the {what} map keeps values of kind {sorted(cur)} after the register they name is overwritten: `sw a0,0(sp); li a0,9; lw t1,0(sp)` claims slot = 9 and t1 = a0", f["sp"])
 
 
+@rule("C16", "C16.d.label-transfers-are-edges-or-calls", floor=4)
 @rule("C03", "C03.e.label-transfers-are-edges-or-calls", floor=4)
 def c03e(F, R):
     """every instruction that transfers control to a label is seen either as a call (calls_to) or as a jump (jumps_to), for every link register: `jal rd, L` with rd = x0, ra or any other register, and every branch; NodeDirectionPass draws its label edges from jumps_to()"""
@@ -2013,3 +2040,80 @@ def c06u(F, R):
             R.ok(name, detail=f"{name}: {len(sites)} intersection meet(s) over evaluated predecessors; a node without an evaluated predecessor waits", where=loc(sites[0]))
         else:
             R.bad(name, f"{name}: {len(sites)} intersection meet(s) over the predecessors evaluated so far fall back to the empty set when there is none: on a cycle with two back edges (in sweep order) the empty state and the real state chase each other and the `while changed` loop never ends", loc(sites[0]))
+
+
+@rule("C14", "C14.f.every-label-of-an-entry-names-the-function", floor=1)
+@rule("C11", "C11.g.every-label-of-an-entry-names-the-function", floor=1)
+def c14f(F, R):
+    """a function entry that carries several labels is registered under every one of them (a `for` over all labels of the entry): registering only one - the smallest, the first - makes a call through another alias no call at all, and which alias that is depends on how the labels are spelled"""
+    gens = pass_impls(F, GENPASS)
+    fm = [rp for t, rp in gens.items() if t.endswith("FunctionMarkupPass")]
+    if not fm:
+        raise Anchor("FunctionMarkupPass::run not found")
+    f = F.fn(fm[0])
+    body = f["hir"]["value"]
+    ins = [m for m in walk(body, pats=False) if m.get("k") == "MethodCall" and m["name"] == "insert_function" and ekey(m["recv"]).lstrip("&*") == "cfg"]
+    if not ins:
+        R.bad("register", "FunctionMarkupPass::run no longer registers functions under their labels", f["sp"])
+        return
+    for n_, m in enumerate(ins):
+        in_loop = None
+        for fl in for_loops(body):
+            if any(y is m for y in walk(fl["body"], pats=False)):
+                in_loop = fl
+        key = f"register|{n_ + 1}"
+        if in_loop is None:
+            R.bad(key, "`cfg.insert_function(label, ..)` is not inside a loop over the entry's labels: only one label of a multi-label entry names the function, so `jal` through another alias is not a call (and a renaming that changes which label is 'first' changes the diagnostics)", loc(m))
+            continue
+        names = [b_["name"] for b_ in walk(in_loop["pat"]) if b_.get("k") == "PBinding"]
+        arg_ok = any(x.get("k") == "Path" and x.get("res") in names for x in walk(m["args"][0], pats=False))
+        it = in_loop["iter"]
+        src = peel(it)
+        while src.get("k") in ("MethodCall", "AddrOf", "Unary") and src.get("name", "iter") in ("iter", "into_iter", "clone", "cloned", "copied", "iter"):
+            src = peel(src.get("recv") or src.get("e") or src.get("a"))
+        selective = [x["name"] for x in walk(it, pats=False) if x.get("k") == "MethodCall" and x["name"] in ("min", "max", "first", "last", "next", "nth", "take", "skip", "filter", "find", "min_by", "max_by", "min_by_key", "max_by_key", "step_by")]
+        # the iterated collection must be the entry's full label set
+        lets = {st["pat"]["name"]: st for st in walk(body, pats=False) if st.get("k") == "Let" and st["pat"].get("k") == "PBinding" and st.get("init")}
+        full = False
+        if src.get("k") == "Path" and src.get("res") in lets:
+            init = lets[src["res"]]["init"]
+            full = mentions_call(init, "labels") and not any(x.get("k") == "MethodCall" and x["name"] in ("min", "max", "first", "last", "next", "nth", "take", "skip", "filter", "find") for x in walk(init, pats=False))
+        elif mentions_call(it, "labels"):
+            full = True
+        if arg_ok and full and not selective:
+            R.ok(key, detail="insert_function(label) for every label of the entry", where=loc(m))
+        else:
+            R.bad(key, f"functions are registered under a selection of the entry's labels ({selective or ekey(it)[:40]}): a call through another label of the same entry is not recognised", loc(m))
+
+
+@rule("C13", "C13.g.zero-register-operands-fold-as-zero", floor=1)
+@rule("C01", "C01.m.zero-register-operands-fold-as-zero", floor=1)
+def c01m(F, R):
+    """in the folding rule an operand that is the zero register counts as the constant 0 (it is never a key of the known-values map): otherwise `mv rd, rs` (= `add rd, rs, x0`) loses what `addi rd, rs, 0` keeps, and the two spellings of one program get different diagnostics"""
+    from .p_parse import parent_map
+    rp = [q for q in F.fns if q.endswith("analysis::available::rule_perform_math_ops")]
+    if not rp:
+        raise Anchor("rule_perform_math_ops not found")
+    f = F.fn(rp[0])
+    body = f["hir"]["value"]
+    pm = parent_map(body)
+    gets = [m for m in walk(body, pats=False) if m.get("k") == "MethodCall" and m["name"] == "get" and ekey(m["recv"]).lstrip("&*") == "available_in"]
+    if not gets:
+        R.bad("operands", "UNEXTRACTABLE: rule_perform_math_ops no longer reads operand values from `available_in`", f["sp"])
+        return
+    bad = []
+    for g in gets:
+        guarded = False
+        x = g
+        while id(x) in pm:
+            x = pm[id(x)]
+            if x.get("k") == "If":
+                c = list(walk(x["cond"], pats=False))
+                if any(m.get("k") == "MethodCall" and m["name"] == "is_const_zero" for m in c) or any(m.get("k") == "Path" and (m.get("res") or "").endswith("Register::X0") for m in c):
+                    guarded = True
+        if not guarded:
+            bad.append(g)
+    if bad:
+        R.bad("operands", f"rule_perform_math_ops takes the value of an operand straight from the known-values map ({len(bad)} place(s)) without treating x0 as the constant 0: `mv s0, sp` forgets that s0 = sp while `addi s0, sp, 0` remembers it, so the same function gets `Unknown stack` / `Overwrite callee-saved register` only in the `mv` spelling", loc(bad[0]))
+    else:
+        R.ok("operands", detail=f"{len(gets)} operand look-up(s), each behind an x0 test")
